@@ -201,7 +201,8 @@ def run(rep, tier, seed):
         for mode in ("r", "w", "a", "x"):
             for existed in (False, True):
                 for nwrites in (0, 1, 2, 3):
-                    for flush in (False, True):
+                    for flush, ending in [(False, "end"), (True, "end")] + ([(False, e) for e in ("exit0", "exit3", "rterror")] +
+                                                                              [(True, "exit0")] if mode != "r" and nwrites else []):
                         path = os.path.join(d, "m%d" % n)
                         before = b"OLD-CONTENT\n" if existed else b""
                         if existed:
@@ -230,8 +231,10 @@ def run(rep, tier, seed):
                                 # what is in the file right after the flush, seen through a second handle
                                 src += ('flush(f);\nlet g = open("%s");\nlet t = read(g);\nlet mi = 0;\neprint("MID");\n'
                                         'while mi < len(t) { eprint(" {}", int(t[mi])); mi = mi + 1; }\neprintln("");\n' % path)
-                        src += 'eprintln("OPENED");\n}\n'
-                        modes.append({"id": "m%d" % n, "mode": mode, "existed": existed, "before": before,
+                        # the program's end: its last statement, exit(n), or a runtime error - what was written is in the
+                        # file in every case ("closed at program end")
+                        src += 'eprintln("OPENED");\n' + {"end": "", "exit0": "exit(0);\n", "exit3": "exit(3);\n", "rterror": "let z = 1 / 0;\n"}[ending] + "}\n"
+                        modes.append({"id": "m%d" % n, "mode": mode, "existed": existed, "before": before, "ending": ending,
                                       "writes": writes if mode != "r" else [], "flush": flush, "path": path, "src": src})
                         n += 1
 
@@ -263,7 +266,7 @@ def run(rep, tier, seed):
                 continue
             m = metas[rec["id"]]
             if rec["kind"] == "modes":
-                sig = "open-mode %s existed=%s writes=%d flush=%s" % (m["mode"], m["existed"], len(m["writes"]), m["flush"])
+                sig = "open-mode %s existed=%s writes=%d flush=%s ending=%s" % (m["mode"], m["existed"], len(m["writes"]), m["flush"], m["ending"])
                 rep.disagree(sig, {"script": m["src"], "stderr": m["stderr"][:300], "after_len": len(rec["after"]), "opened": rec["opened"]})
             else:
                 c = m["obs"][v["at"] - 1]
@@ -278,7 +281,7 @@ def run(rep, tier, seed):
         rep.cov["rule"] = ("contents (binary / UTF-8; sizes 0, 1, 2, 100 and around 4096 / 8192 / 12288 / 16384 / 24576) x call sequences "
                            "of 2-7 read(f, n) / read(f) / read_line(f) / read_to_string(f) on files and on stdin under random chunk "
                            "schedules (chunks 1..10000 bytes, pauses 0 / 1 / 20 ms); open-mode matrix mode x existed x 0-3 writes x "
-                           "flush (128 runs); distinct = distinct (source, content size, call sequence) + matrix cells")
+                           "flush x the way the program ends (last statement, exit(n), runtime error); distinct = distinct (source, content size, call sequence) + matrix cells")
         rep.cov["exhaustive"] = False
         rep.sample({"script": items[0]["src"][:600], "content_len": len(items[0]["content"]),
                     "results": [(c["op"], c["n"], len(c["res"].get("v", []))) for c in items[0]["obs"]]})
